@@ -138,6 +138,9 @@ def oracle(case, pair):
     known finding when any of them is listed by an open finding)"""
     import cmp_gen
     if case.get('mode') != 'named':
+        # outside the named netlists: a netlist is still accepted against an equal copy of itself
+        if pair['tag'] == 'equal' and pair.get('canon_equal') and pair['real'] != 'accept':
+            return ['equal-copy-any|%s|%s' % (case.get('copy'), pair['real'])]
         return None
     if pair['tag'] == 'equal':
         if not pair['canon_equal']:
@@ -355,6 +358,9 @@ class _TokReader:
             return '(PIn %s %s)' % (coq_oname(self.next()), self.next())
         if k == 'O':
             return '(POut %s %s %s)' % (coq_oname(self.next()), coq_oname(self.next()), self.next())
+        if k == 'A':
+            return '(PAnon %s %s %s %s)' % (coq_oname(self.next()), coq_oname(self.next()), coq_oname(self.next()),
+                                            self.next())
         if k == 'D':
             return '(PDang %s %s %s %s %s)' % (coq_oname(self.next()), coq_oname(self.next()), coq_oname(self.next()),
                                               coq_oname(self.next()), self.next())
@@ -544,6 +550,10 @@ def run(prop, tier, seed, replay):
             n_ill += 1
         # oracle on the implementation
         sig = oracle(case, p)
+        if not sig and p['real'] not in ('accept', 'reject') and m['outcome'] != 'ill':
+            # on ANY netlist (unnamed elements, assignment names, dangling pins ... included) compare()
+            # returns or raises AssertionError (theorem C20_raises_only_assertion)
+            sig = ['raises-%s|any-netlist' % p['real']]
         expected = case.get('expect', {}).get(p['tag'])
         if expected is not None and case.get('finding'):
             # witness of an open finding (refutation lemma of Props/C20.v): while it still
